@@ -523,7 +523,7 @@ func (g *G) c17EndFrac(exact bool) float64 {
 	return 0.05 + 0.9*g.rng.Float()
 }
 
-const c16Classes = 8
+const c16Classes = 9
 
 // c16Candidate returns a candidate 4-tuple (a0, a1, b0, b1) of the given class; the caller keeps it only when
 // CrossingSign == Cross.
@@ -643,6 +643,9 @@ func (g *G) c16Candidate(class int) [4]s2.Point {
 
 	case 6: // 6. equal-length edges (exact mirror images / quarter turns), edges sharing coordinate values
 		return g.c16EqualLen()
+
+	case 8: // 8. collinear overlapping edges with PARALLEL but not bit-equal vertices (D50)
+		return g.c16CollinearParallel()
 	}
 
 	// 7. uniform random crossing pairs
@@ -768,6 +771,125 @@ func (g *G) c16Collinear() [4]s2.Point {
 	var e [4]s2.Point
 	for j := 0; j < 4; j++ {
 		e[j] = mk(t[ix[j]], w[j])
+	}
+	perm, sg := r.Intn(6), r.Intn(8)
+	return g.c17Shuffle(c17Perm4(e, perm, sg))
+}
+
+// c16Rescale returns p scaled by 1 + k ulps (k in -4..4, k != 0: the factor is 1 + k*2^-52 for k > 0 and
+// 1 + k*2^-53 for k < 0, i.e. the k-th float above / below 1), every coordinate rounded once.  For points whose
+// non-zero coordinates are powers of two the product is exact, so the result is EXACTLY parallel to p and not
+// bit-equal to it; for other points it is the nearest float vector to a parallel one (1 ulp off at most).
+func c16Rescale(p s2.Point, k int) s2.Point {
+	f := c17Ulps(1, k)
+	return c17Raw(p.X*f, p.Y*f, p.Z*f)
+}
+
+// c16CollinearParallel (finding D50): exactly collinear overlapping edges on the great circle z == 0 (then permuted
+// / reflected) in which a vertex of one edge is a RESCALED copy of a vertex of the other edge (or of its midpoint):
+// the same point of the sphere given as two different float vectors.  The determinant of such a pair with any normal
+// is exactly 0 (or a few ulps), so OrderedCCW inside the collinear rule of intersectionExact is decided by the
+// symbolic perturbation of RobustSign, which is not odd in the normal: before the repair of D50 the result depended
+// on the direction in which an edge was passed.
+//   base point v : a coordinate axis (rescaling is exact), a point (2^-k, 1, 0) with k >= 27 (unit within
+//                  tolerance, rescaling is exact), or a general point of the circle (rescaling rounds)
+//   shapes       : both edges END at v (one contained in the other: the D50 input), the edges only TOUCH at v,
+//                  v is an endpoint of b and (a copy of) the midpoint / an inner point of a, both pairs of
+//                  endpoints parallel (the same edge given twice)
+// The caller keeps the candidate only if it passes c17Valid4 (so |p|^2 stays within 5e-16 of 1: the larger
+// rescalings are dropped there) and CrossingSign == Cross.
+func (g *G) c16CollinearParallel() [4]s2.Point {
+	r := g.rng
+	at := func(t float64) s2.Point { return s2.PointFromCoords(math.Cos(t), math.Sin(t), 0) }
+	var v s2.Point
+	var tv float64
+	switch r.Intn(4) {
+	case 0, 1: // coordinate axis of the plane
+		q := r.Intn(4)
+		tv = float64(q) * math.Pi / 2
+		v = [4]s2.Point{c17Raw(1, 0, 0), c17Raw(0, 1, 0), c17Raw(-1, 0, 0), c17Raw(0, -1, 0)}[q]
+	case 2: // (2^-k, 1, 0): all coordinates powers of two, |v|^2 = 1 + 2^-2k
+		k := 27 + r.Intn(40)
+		if r.Intn(4) == 0 {
+			k = 27 + r.Intn(990)
+		}
+		x := math.Ldexp(g.c17Sign(), -k)
+		if r.Bool() {
+			v = c17Raw(x, g.c17Sign(), 0)
+		} else {
+			v = c17Raw(g.c17Sign(), x, 0)
+		}
+		tv = math.Atan2(v.Y, v.X)
+	default: // a general point of the circle
+		tv = r.Float() * 2 * math.Pi
+		v = at(tv)
+	}
+	// +1, -1, -2 keep |p|^2 within 5e-16 of 1 for a unit p (c17ValidPt); the others (up to 4 ulps) survive only when
+	// |p|^2 was off in the other direction
+	kk := func() int {
+		if r.Intn(4) != 0 {
+			return [3]int{1, -1, -2}[r.Intn(3)]
+		}
+		k := 1 + r.Intn(4)
+		if r.Bool() {
+			k = -k
+		}
+		return k
+	}
+	// two different representatives of v
+	va, vb := v, v
+	switch r.Intn(3) {
+	case 0:
+		vb = c16Rescale(v, kk())
+	case 1:
+		va = c16Rescale(v, kk())
+	default:
+		ka, kb := kk(), kk()
+		for kb == ka {
+			kb = kk()
+		}
+		va, vb = c16Rescale(v, ka), c16Rescale(v, kb)
+	}
+	if r.Intn(8) == 0 { // re-normalised copy (for most points this gives v back: dropped by the caller as a shared vertex)
+		vb = s2.Point{Vector: vb.Normalize()}
+	}
+	// arc lengths of the other endpoints, measured from v
+	arc := func() float64 {
+		switch r.Intn(4) {
+		case 0:
+			return g.c17LogU(1e-9, 1e-2)
+		case 1:
+			return g.c17LogU(1e-2, 3.0)
+		}
+		return 0.02 + 2.9*r.Float()
+	}
+	la, lb := arc(), arc()
+	sa := g.c17Sign()
+	var e [4]s2.Point
+	switch r.Intn(6) {
+	case 0, 1, 2: // both edges end at v on the same side: one edge contains the other
+		e = [4]s2.Point{at(tv + sa*la), va, at(tv + sa*lb), vb}
+	case 3: // the edges touch at v only
+		e = [4]s2.Point{at(tv + sa*la), va, at(tv - sa*lb), vb}
+	case 4: // v is an inner point of a (the midpoint when la2 == la) and an endpoint of b
+		la2 := la
+		if r.Bool() {
+			la2 = arc()
+		}
+		for la+la2 > math.Pi-1e-6 {
+			la, la2 = la*0.7, la2*0.7
+		}
+		e = [4]s2.Point{at(tv - la), at(tv + la2), at(tv + sa*lb), vb}
+		if r.Bool() { // b1 = a rescaled copy of the float midpoint of a
+			m := s2.Point{Vector: e[0].Add(e[1].Vector).Normalize()}
+			e[3] = c16Rescale(m, kk())
+		}
+	default: // the same edge twice, both pairs of endpoints parallel and not bit-equal
+		w := at(tv + sa*la)
+		if r.Bool() { // a second axis / exact point where possible
+			w = c17Raw(-v.Y, v.X, 0)
+		}
+		e = [4]s2.Point{w, va, c16Rescale(w, kk()), vb}
 	}
 	perm, sg := r.Intn(6), r.Intn(8)
 	return g.c17Shuffle(c17Perm4(e, perm, sg))
